@@ -109,7 +109,7 @@ CHECKS = {
          "(also long windows of 16-60 taps on every back-end and alpha-aware down-scales of crops deep inside the source) "
          "recorded resizes (13 types x back-ends x Convolution/Interpolation/SuperSampling m=1..3 x random/extreme/checkerboard/impulse contents; intermediate images dumped by hooks) is recomputed from the recorded pixels and "
          "those tables: integer samples must be the nearest integer of the fixed-point sum (half a unit, either neighbour at a tie, clamped), I32 within 1/2, floats within 2^-22 relative (+2^-45 of the absolute mass); "
-         "SuperSampling's intermediate is the nearest-neighbour image; premultiply/divide per Alpha.tla. Design level: MC_FixedPoint, MC_Geometry, GeomLemmas!WindowInside.",
+         "SuperSampling's intermediate is the nearest-neighbour image; premultiply/divide per Alpha.tla. Design level: MC_FixedPoint, MC_Geometry, GeomLemmas!WindowInside (Apalache, sizes < 2^16), proofs/WindowProof (TLAPS, all naturals).",
     note="Transcendental kernel values off the 1/64 grid are not compared (windows, sum and quantisation still are). IEEE roundings are judged by exact dyadic intervals, not bit-exactly. The integer criterion is tied to "
          "the fixed-point architecture (dumped coefficients).", design="4/C01", technique=TECH + " with exact Wide/dyadic arithmetic"),
  "C02": dict(
@@ -153,7 +153,7 @@ m = {"version": 1,
                "source_commits": ["ef02d83", "927d2c0", "2fbaacf", "6d53a32", "7b816cc"], "add_only": True},
      "engines": [{"name": "tlc", "path": "/usr/local/bin/tlc", "serves_properties": sorted(CHECKS), "kind_free_text": "TLA+ explicit-state model checker (model checks and trace validation)"},
                  {"name": "apalache", "path": "/usr/local/bin/apalache-mc", "serves_properties": sorted(CHECKS), "kind_free_text": "symbolic checker for arithmetic lemmas over full machine ranges"},
-                 {"name": "tlapm", "path": "/usr/local/bin/tlapm", "serves_properties": ["C03", "C11", "C14", "C15"], "kind_free_text": "TLA+ proof system: unbounded proofs of the band arithmetic and of nearest-index-inside-source"},
+                 {"name": "tlapm", "path": "/usr/local/bin/tlapm", "serves_properties": ["C01", "C03", "C11", "C14", "C15"], "kind_free_text": "TLA+ proof system: unbounded proofs of the band arithmetic, nearest-index-inside-source, window-inside-source and fit-crop-inside-source"},
                  {"name": "firv", "path": "/verif/harness", "serves_properties": sorted(CHECKS), "kind_free_text": "Rust conformance harness: executes cases against the real library and records traces (no oracle)"}],
      "checks": [], "not_applicable": [],
      "notes": "One entry point: ./check <ID> --tier quick|thorough. Exit 0 held, 1 VIOLATION, 2 tool failure. Known findings: known_findings.json."}
